@@ -24,7 +24,16 @@ use std::sync::mpsc::{channel, Receiver, Sender};
 /// Failing table calls with distinct descriptions.
 pub const FAIL_KINDS: usize = 12;
 
-fn fail_call(t: &FnTable, pp: &mut ParsedPacket, kind: usize, err: &mut *const CErr) -> i32 {
+/// Objects that failing calls were made on stay alive as long as their worker thread: a description
+/// must not depend on the packet that produced it, but a library that (wrongly) ties the two together
+/// must show up as a wrong text, not as a use-after-free that kills the harness.
+#[derive(Default)]
+pub struct Keep {
+    big: Option<ParsedPacket>,
+    retired: Vec<ParsedPacket>,
+}
+
+fn fail_call(t: &FnTable, pp: &mut ParsedPacket, kind: usize, err: &mut *const CErr, keep: &mut Keep) -> i32 {
     unsafe {
         match kind {
             0 => {
@@ -73,16 +82,17 @@ fn fail_call(t: &FnTable, pp: &mut ParsedPacket, kind: usize, err: &mut *const C
             }
             8 => {
                 // insertion into a packet that is 8 bytes short of the 8192-byte limit: "Packet too large"
-                let mut big = DNSSector::new(big_packet().clone()).unwrap().parse().unwrap();
+                let big = keep.big.get_or_insert_with(|| DNSSector::new(big_packet().clone()).unwrap().parse().unwrap());
                 let text = b"www.example.com. 1 IN A 1.2.3.4\0";
-                (t.add_to_answer)(&mut big as *mut ParsedPacket, err as *mut *const CErr, text.as_ptr() as *const libc::c_char)
+                (t.add_to_answer)(big as *mut ParsedPacket, err as *mut *const CErr, text.as_ptr() as *const libc::c_char)
             }
             _ => {
                 // failures inside an iteration callback: second delete of a record ("Void record"),
                 // set_raw_name with a name that is not well-formed
-                let mut own = DNSSector::new(gens::golden_packets()[0].clone()).unwrap().parse().unwrap();
+                keep.retired.push(DNSSector::new(gens::golden_packets()[0].clone()).unwrap().parse().unwrap());
+                let own = keep.retired.last_mut().unwrap();
                 let mut cbx = CbCtx { table: t, err: err as *mut *const CErr, rc: 0, kind };
-                (t.iter_answer)(&mut own as *mut ParsedPacket, cb_fail, &mut cbx as *mut CbCtx as *mut libc::c_void);
+                (t.iter_answer)(own as *mut ParsedPacket, cb_fail, &mut cbx as *mut CbCtx as *mut libc::c_void);
                 cbx.rc
             }
         }
@@ -203,6 +213,7 @@ fn spawn_worker(shared: Shared) -> Worker {
         let table = fn_table();
         let mut pp = DNSSector::new(gens::golden_packets()[0].clone()).unwrap().parse().unwrap();
         let mut err: *const CErr = std::ptr::null();
+        let mut keep = Keep::default();
         // the description "stays intact until that thread's next failure": the pointer handed out at
         // the first read after a failure is kept and re-read at every later read
         let mut kept: *const libc::c_char = std::ptr::null();
@@ -213,9 +224,9 @@ fn spawn_worker(shared: Shared) -> Worker {
                         Some(i) => {
                             // a packet handed from thread to thread (the schedule is lock-step, the mutex is never contended)
                             let mut g = shared[i % shared.len()].lock().unwrap();
-                            fail_call(&table, &mut g, k, &mut err)
+                            fail_call(&table, &mut g, k, &mut err, &mut keep)
                         }
-                        None => fail_call(&table, &mut pp, k, &mut err),
+                        None => fail_call(&table, &mut pp, k, &mut err, &mut keep),
                     };
                     kept = std::ptr::null();
                     let _ = rtx.send(Reply::Failed(rc));
